@@ -126,6 +126,12 @@ func init() {
 	})
 	reg("github.com/cosmos/cosmos-sdk/types.MustAccAddressFromBech32", func(e *Engine, fn *ssa.Function, a []Value) Value {
 		s := toSeq(a[0])
+		if c, isC := goStr(s); isC {
+			if bz, ok := bech32Decode(c); ok && len(bz) > 0 {
+				return StrConst(string(bz))
+			}
+			e.goPanicf("MustAccAddressFromBech32: invalid address")
+		}
 		ok := UF("bech32_ok", BoolS, s)
 		bz := UF("bech32_dec", StrS, s)
 		e.addAxiom(fmt.Sprintf("bech32:%d", s.id), AndN(
